@@ -20,6 +20,7 @@ import (
 	"errors"
 	"fmt"
 	"os"
+	"path/filepath"
 	"reflect"
 	"regexp"
 	"sort"
@@ -1068,11 +1069,103 @@ func (c *vchCtx) revokeMaybeCut(p int) {
 	}
 }
 
+// genDanceCut is a directed snippet: starting from a state without pending
+// commitments, p makes one or two updates and runs a commitment dance in which
+// every message is delivered at once; the connection is cut (both sides
+// restart, nothing in flight survives) after a random stage of the dance.
+// Optionally p sends a second update + signature as soon as its window
+// reopens, i.e. while the peer has not signed the first one back.
+func (c *vchCtx) genDanceCut(p int) {
+	r := c.r
+	q := 1 - p
+	ok := func() bool { return c.abort == "" }
+	update := func() {
+		res := c.resolvable(p)
+		switch x := r.intn(10); {
+		case p == 0 && !c.noFee && x < 5:
+			c.doFee(0, c.pickFee(), false)
+		case len(res) > 0 && x < 8:
+			c.doResolve([]string{"settle", "fail", "malformed"}[r.intn(3)],
+				p, res[r.intn(len(res))], false, false)
+		default:
+			c.genAdd(p)
+		}
+	}
+	flush := func(to int) {
+		for ok() && c.canDeliver(to) {
+			c.doDeliver(to)
+		}
+	}
+	stop := r.intn(9)
+	second := r.intn(3) == 0
+	update()
+	if r.intn(3) == 0 {
+		update()
+	}
+	stages := []func(){
+		func() { c.doSign(p) },
+		func() { flush(q) },
+		func() {
+			if c.hasLtip(q) {
+				c.doRevoke(q)
+			}
+		},
+		func() {
+			flush(p)
+			if second && ok() && c.windowOpen(p) {
+				update()
+				if ok() && c.owes(p) {
+					c.doSign(p)
+				}
+			}
+		},
+		func() {
+			if c.windowOpen(q) && c.owes(q) {
+				c.doSign(q)
+			}
+		},
+		func() { flush(p) },
+		func() {
+			if c.hasLtip(p) {
+				c.doRevoke(p)
+			}
+		},
+		func() { flush(q) },
+	}
+	for i, st := range stages {
+		if !ok() {
+			return
+		}
+		st()
+		if i == stop {
+			break
+		}
+	}
+	if ok() && c.cut {
+		c.doCut(0, 0)
+	}
+}
+
+func (c *vchCtx) calm() bool {
+	for p := 0; p < 2; p++ {
+		if c.hasLtip(p) || !c.windowOpen(p) || len(c.q[p]) > 0 {
+			return false
+		}
+	}
+	return true
+}
+
 func (c *vchCtx) run(maxSteps int) {
 	r := c.r
+	if c.cut && r.intn(5) == 0 {
+		// a dance with a restart on the brand-new channel
+		c.genDanceCut(r.intn(3) / 2) // the opener twice as often
+	}
 	for len(c.steps) < maxSteps && c.abort == "" {
 		x := r.intn(1000)
 		switch {
+		case c.cut && x >= 300 && x < 340 && c.calm():
+			c.genDanceCut(r.intn(2))
 		case c.crash && x < 83:
 			c.doCrash(r.intn(2))
 		case c.cut && x >= 100 && x < 150:
@@ -1197,8 +1290,10 @@ func vchSelectTypes() []vchType {
 // trace, plus ["drain"]) replayed verbatim: VERIF_CHAN_SCRIPT=<file> holding
 // one object or a list of objects {"chan_type": name, "ops": [[...], ...]}.
 type vchScript struct {
-	ChanType string  `json:"chan_type"`
-	Ops      [][]any `json:"ops"`
+	ChanType   string  `json:"chan_type"`
+	Ops        [][]any `json:"ops"`
+	ExpectLast string  `json:"expect_last"` // copied into the row
+	origin     string
 }
 
 func vchNum(v any) int64 {
@@ -1262,17 +1357,37 @@ func vchLoadScripts(path string) []vchScript {
 	var many []vchScript
 	dec := json.NewDecoder(bytes.NewReader(raw))
 	dec.UseNumber()
-	if err := dec.Decode(&many); err == nil {
-		return many
+	if err := dec.Decode(&many); err != nil {
+		var one vchScript
+		dec = json.NewDecoder(bytes.NewReader(raw))
+		dec.UseNumber()
+		if err := dec.Decode(&one); err != nil {
+			panic("vch script " + path + ": " + err.Error())
+		}
+		many = []vchScript{one}
 	}
-	var one vchScript
-	dec = json.NewDecoder(bytes.NewReader(raw))
-	dec.UseNumber()
-	if err := dec.Decode(&one); err != nil {
-		panic("VERIF_CHAN_SCRIPT: " + err.Error())
+	for i := range many {
+		many[i].origin = fmt.Sprintf("%s#%d", filepath.Base(path), i)
 	}
-	return []vchScript{one}
+	return many
 }
+
+// vchLoadCorpus reads every *.json of a directory (sorted by name).
+func vchLoadCorpus(dir string) []vchScript {
+	files, err := filepath.Glob(filepath.Join(dir, "*.json"))
+	if err != nil {
+		panic(err)
+	}
+	sort.Strings(files)
+	var out []vchScript
+	for _, f := range files {
+		out = append(out, vchLoadScripts(f)...)
+	}
+	return out
+}
+
+// vchCorpusBase: case numbers of corpus / script rows start here.
+const vchCorpusBase = 1000000
 
 func TestVerifChan(t *testing.T) {
 	out := vOpenOut()
@@ -1288,29 +1403,34 @@ func TestVerifChan(t *testing.T) {
 	crashOn := vEnvInt("VERIF_CRASH", 1) != 0
 	cutOn := vEnvInt("VERIF_CUT", 1) != 0
 	first := int(vEnvInt("VERIF_FIRST_CASE", 0))
+
+	// Explicit schedules first: VERIF_CHAN_SCRIPT=<file> runs ONLY that
+	// file; VERIF_CHAN_CORPUS=<dir> runs every *.json of the directory
+	// before the generated cases.
 	var scripts []vchScript
 	if p := os.Getenv("VERIF_CHAN_SCRIPT"); p != "" {
 		scripts = vchLoadScripts(p)
-		first, ncases = 0, len(scripts)
+		ncases = 0
+	} else if d := os.Getenv("VERIF_CHAN_CORPUS"); d != "" {
+		scripts = vchLoadCorpus(d)
 	}
 
-	for ci := first; ci < first+ncases; ci++ {
-		ci := ci
+	runCase := func(name string, ci int, sc *vchScript) {
 		// One subtest per schedule so that databases, temp dirs and
 		// signature pools are released as soon as the schedule ends.
-		t.Run(fmt.Sprintf("c%d", ci), func(t *testing.T) {
+		t.Run(name, func(t *testing.T) {
 			r := master.fork(uint64(ci))
 			ty := types[ci%len(types)]
-			if scripts != nil {
+			if sc != nil {
 				ty = vchType{}
 				for _, x := range vchTypes {
-					if x.name == scripts[ci].ChanType {
+					if x.name == sc.ChanType {
 						ty = x
 					}
 				}
 				if ty.name == "" {
-					t.Fatalf("script %d: unknown chan_type %q", ci,
-						scripts[ci].ChanType)
+					t.Fatalf("script %s: unknown chan_type %q",
+						sc.origin, sc.ChanType)
 				}
 			}
 			a, b, err := CreateTestChannels(t, ty.ct)
@@ -1339,10 +1459,15 @@ func TestVerifChan(t *testing.T) {
 					"a": c.partyDump(a), "b": c.partyDump(b),
 				},
 			}
-			if scripts != nil {
+			if sc != nil {
 				c.freeRev = true
-				c.runScript(scripts[ci].Ops)
+				c.runScript(sc.Ops)
 				row["script"] = true
+				row["corpus"] = sc.origin
+				row["expect_last"] = nil
+				if sc.ExpectLast != "" {
+					row["expect_last"] = sc.ExpectLast
+				}
 			} else {
 				c.run(steps)
 			}
@@ -1355,5 +1480,12 @@ func TestVerifChan(t *testing.T) {
 			row["n_sign"] = c.nSign
 			out.emit(row)
 		})
+	}
+
+	for i := range scripts {
+		runCase(fmt.Sprintf("s%d", i), vchCorpusBase+i, &scripts[i])
+	}
+	for ci := first; ci < first+ncases; ci++ {
+		runCase(fmt.Sprintf("c%d", ci), ci, nil)
 	}
 }
